@@ -44,7 +44,25 @@ def contraction_case(draw):
 
 @st.composite
 def diverging_case(draw):
-    kind = draw(st.sampled_from(['gain', 'gain', 'square', 'huge', 'oscillate']))
+    kind = draw(st.sampled_from(['gain', 'gain', 'square', 'huge', 'oscillate', 'leaf-div0']))
+    if kind == 'leaf-div0':
+        # a derived-only ratio whose denominator (an exogenous series) is exactly zero in one period
+        spec = draw(blocks.system(n_sim=(1, 3), q_hi=50, lags=(0, 1), exos=(0, 1), consts=(0, 0), aliases=(0, 0),
+                                  leaves=(0, 1), horizon=(2, 4), tols=TOLS))
+        T = spec['maxtime']
+        p0 = draw(st.integers(1, T))
+        vals = [1.0 + i for i in range(T + 1)]
+        vals[p0] = 0.0
+        spec['exo'].append(['Z0', repr(vals), 'list', vals])
+        first = spec['eqs'][0][0]
+        spec['eqs'].append(['ratio', draw(st.sampled_from(['1.0/Z0', first + '/Z0', '(' + first + ' - 1.0)/(2.0*Z0)'])), 'leaf'])
+        spec['cert']['family'] = kind
+        spec['cert']['lam']['ratio'] = None
+        spec['layout']['perm'] = None
+        spec['reduction'] = draw(st.sampled_from([True, True, False]))
+        spec['max_iter'] = None
+        spec['tol_param'] = None
+        return spec
     if kind == 'gain':
         gain = draw(st.sampled_from([150, 200, 1000, 100000, 1000000, 120, 101]))
         spec = draw(blocks.system(n_sim=(1, 4), q_hi=50, lags=(0, 2), exos=(0, 1), consts=(0, 1), aliases=(0, 1),
